@@ -1025,6 +1025,15 @@ class _AbstractType:
     def __repr__(self):
         return f'<abstract {self.name}>'
 
+    # in annotations and type aliases: Iterable[int], Iterable | None
+    def __getitem__(self, k):
+        return self
+
+    def __or__(self, o):
+        return self
+
+    __ror__ = __or__
+
 
 _FLT = z3.DeclareSort('PyFloat')
 _fpos = z3.Function('float_is_positive', _FLT, z3.BoolSort())
